@@ -744,9 +744,10 @@ pub mod fasta {
             [C01,C03,C04,C06|fasta.next.end] r is None ==> final(self).buf_reader.errs() == old(self).buf_reader.errs() && final(self).state == State::Finished
                 && (old(self).state == State::Finished || (old(self).state == State::New
                     && (old(self).fresh() ==> first_nonblank(old(self).f(), 0) == old(self).f().len()))),
+            [C01,C04,C20|fasta.next.end_is_sticky] old(self).state == State::Finished ==> r is None,
             [C01,C03,C04,C06,C12|fasta.next.record] r matches Some(Ok(rec)) ==> final(self).buf_reader.errs() == old(self).buf_reader.errs()
                 && old(self).state != State::Finished
-                && rec.buffer@ == final(self).b() && rec.buf_pos.same_as(&final(self).buf_pos) && rec.buf_pos.rwf(rec.buffer@)
+                && rec.buffer@ == final(self).b() && *rec.buf_pos == final(self).buf_pos && rec.buf_pos.rwf(rec.buffer@)
                 && (final(self).state == State::Parsing || final(self).state == State::Finished)
                 && (!old(self).poisoned() && old(self).clean() ==> ({
                     let (ff, p) = (old(self).f(), old(self).cursor());
@@ -1366,6 +1367,30 @@ pub mod fasta {
         ensures fa_bnd(f, p) == f.len(), fa_lines(f, p) == l
     { lemma_bnd_eof(f, p, e); }
 
+    /// header and sequence lines of the record that starts at p, as the format rules define them (file level, terminators removed)
+    pub open spec fn fa_rec_head(f: Seq<u8>, p: int) -> Seq<u8> { trim(f.subrange(p + 1, fa_lines(f, p)[0])) }
+    pub open spec fn fa_rec_lines(f: Seq<u8>, p: int) -> Seq<Seq<u8>> {
+        let ls = fa_lines(f, p);
+        Seq::new((ls.len() - 1) as nat, |i: int| trim(f.subrange(ls[i] + 1, ls[i + 1])))
+    }
+    /// the views of a record held in a window of the file are the file-level ones
+    proof fn lemma_views_lift(f: Seq<u8>, a: int, w: Seq<u8>, bp: &BufferPosition)
+        requires 0 <= a, a + w.len() <= f.len(), w == f.subrange(a, a + w.len()), bp.rwf(w), shl(bp.l(), a) == fa_lines(f, a + bp.start)
+        ensures bp.head_v(w) == fa_rec_head(f, a + bp.start), bp.lines_v(w) == fa_rec_lines(f, a + bp.start)
+    {
+        bp.lemma_offsets(w);
+        let l = bp.l();
+        let ls = fa_lines(f, a + bp.start);
+        assert(ls.len() == l.len());
+        assert forall|i: int| 0 <= i < l.len() implies #[trigger] ls[i] == l[i] + a by { assert(shl(l, a)[i] == l[i] + a); }
+        assert(w.subrange(bp.start + 1, l[0]) =~= f.subrange(a + bp.start + 1, ls[0]));
+        assert forall|i: int| 0 <= i < l.len() - 1 implies #[trigger] bp.line_v(w, i) == trim(f.subrange(ls[i] + 1, ls[i + 1])) by {
+            assert(l[i] < l[i + 1]);
+            assert(w.subrange(l[i] + 1, l[i + 1]) =~= f.subrange(ls[i] + 1, ls[i + 1]));
+        }
+        assert(bp.lines_v(w) =~= fa_rec_lines(f, a + bp.start));
+    }
+
 //@item fasta::RecordSet attrs="#[derive(Default)]"
     impl RecordSet {
         spec fn n(&self) -> int { self.npos as int }
@@ -1840,6 +1865,105 @@ pub mod fasta {
         proof {
             assert(vx_r is Some ==> old(self).pos.decrease() is Some && self.pos.decrease() is Some
                 && self.pos.decrease().unwrap() < old(self).pos.decrease().unwrap());
+        }
+//@end
+}
+
+//@item fasta::RecordsIter
+//@item fasta::RecordsIntoIter
+//@impl_open fasta::Reader::records
+//@fn fasta::Reader::records ret=r tags=C20,C04
+//@spec
+        ensures
+            [C04,C20|fasta.records.same_reader] *r.rdr == *old(self) && *final(r.rdr) == *final(self),
+//@end
+//@fn fasta::Reader::into_records ret=r tags=C20,C04
+//@spec
+        ensures
+            [C04,C20|fasta.into_records.same_reader] r.rdr == self,
+//@end
+}
+
+    // ---- owned-record iterators (R15: verified as inherent methods, see DESIGN 11.6) ----
+
+//@impl_open fasta::Iterator for RecordsIter::next inherent=1
+//@fn fasta::Iterator for RecordsIter::next ret=r tags=C20,C04,C13
+//@spec
+        requires
+            old(self).rdr.wf(),
+        ensures
+            [C04,C06,C20|fasta.RecordsIter.next.wf] final(self).rdr.wf() && final(self).rdr.f() == old(self).rdr.f(),
+            [C20|fasta.RecordsIter.next.end_is_sticky] old(self).rdr.state == State::Finished ==> r is None && final(self).rdr.state == State::Finished,
+            [C04,C20|fasta.RecordsIter.next.end] r is None ==> final(self).rdr.state == State::Finished
+                && (old(self).rdr.state == State::Finished || (old(self).rdr.state == State::New
+                    && (old(self).rdr.fresh() ==> first_nonblank(old(self).rdr.f(), 0) == old(self).rdr.f().len()))),
+            [C01,C04,C13|fasta.RecordsIter.next.record] r matches Some(Ok(o)) ==> (old(self).rdr.clean() ==> ({
+                    let (ff, p) = (old(self).rdr.f(), old(self).rdr.cursor());
+                    &&& 0 <= p < ff.len() && ff[p] == 62u8
+                    &&& o.head@ == fa_rec_head(ff, p) && o.seq@ == concat(fa_rec_lines(ff, p))
+                    &&& (final(self).rdr.state == State::Parsing ==> final(self).rdr.cursor() == fa_bnd(ff, p) && fa_bnd(ff, p) < ff.len())
+                    &&& (final(self).rdr.state == State::Finished ==> fa_bnd(ff, p) == ff.len())
+                })),
+//@closure 0 params="rec: Result<RefRecord, Error>" ret="(q: Result<OwnedRecord, Error>)"
+            requires rec matches Ok(x) ==> x.rwf()
+            ensures (rec matches Ok(x) ==> q matches Ok(o) && o.head@ == x.head_v() && o.seq@ == concat(x.lines_v())),
+                (rec matches Err(e) ==> q == Err::<OwnedRecord, Error>(e))
+//@closure 1 params="r: RefRecord" ret="(o: OwnedRecord)"
+            requires r.rwf()
+            ensures o.head@ == r.head_v() && o.seq@ == concat(r.lines_v())
+//@tail vx_r
+        proof {
+            if vx_r is Some && vx_r.unwrap() is Ok {
+                if old(self).rdr.clean() {
+                    let (ff, p) = (old(self).rdr.f(), old(self).rdr.cursor());
+                    let rd = &self.rdr;
+                    let l = shl(spv(rd.buf_pos.seq_pos@), rd.base());
+                    let e = rd.base() + rd.search_pos;
+                    if rd.state == State::Parsing { lemma_lines_complete(ff, p, l, e); } else { lemma_lines_eof(ff, p, l, e); }
+                    lemma_views_lift(ff, rd.base(), rd.b(), &rd.buf_pos);
+                }
+            }
+        }
+//@end
+}
+
+//@impl_open fasta::Iterator for RecordsIntoIter::next inherent=1
+//@fn fasta::Iterator for RecordsIntoIter::next ret=r tags=C20,C04,C13
+//@spec
+        requires
+            old(self).rdr.wf(),
+        ensures
+            [C04,C06,C20|fasta.RecordsIntoIter.next.wf] final(self).rdr.wf() && final(self).rdr.f() == old(self).rdr.f(),
+            [C20|fasta.RecordsIntoIter.next.end_is_sticky] old(self).rdr.state == State::Finished ==> r is None && final(self).rdr.state == State::Finished,
+            [C04,C20|fasta.RecordsIntoIter.next.end] r is None ==> final(self).rdr.state == State::Finished
+                && (old(self).rdr.state == State::Finished || (old(self).rdr.state == State::New
+                    && (old(self).rdr.fresh() ==> first_nonblank(old(self).rdr.f(), 0) == old(self).rdr.f().len()))),
+            [C01,C04,C13|fasta.RecordsIntoIter.next.record] r matches Some(Ok(o)) ==> (old(self).rdr.clean() ==> ({
+                    let (ff, p) = (old(self).rdr.f(), old(self).rdr.cursor());
+                    &&& 0 <= p < ff.len() && ff[p] == 62u8
+                    &&& o.head@ == fa_rec_head(ff, p) && o.seq@ == concat(fa_rec_lines(ff, p))
+                    &&& (final(self).rdr.state == State::Parsing ==> final(self).rdr.cursor() == fa_bnd(ff, p) && fa_bnd(ff, p) < ff.len())
+                    &&& (final(self).rdr.state == State::Finished ==> fa_bnd(ff, p) == ff.len())
+                })),
+//@closure 0 params="rec: Result<RefRecord, Error>" ret="(q: Result<OwnedRecord, Error>)"
+            requires rec matches Ok(x) ==> x.rwf()
+            ensures (rec matches Ok(x) ==> q matches Ok(o) && o.head@ == x.head_v() && o.seq@ == concat(x.lines_v())),
+                (rec matches Err(e) ==> q == Err::<OwnedRecord, Error>(e))
+//@closure 1 params="r: RefRecord" ret="(o: OwnedRecord)"
+            requires r.rwf()
+            ensures o.head@ == r.head_v() && o.seq@ == concat(r.lines_v())
+//@tail vx_r
+        proof {
+            if vx_r is Some && vx_r.unwrap() is Ok {
+                if old(self).rdr.clean() {
+                    let (ff, p) = (old(self).rdr.f(), old(self).rdr.cursor());
+                    let rd = &self.rdr;
+                    let l = shl(spv(rd.buf_pos.seq_pos@), rd.base());
+                    let e = rd.base() + rd.search_pos;
+                    if rd.state == State::Parsing { lemma_lines_complete(ff, p, l, e); } else { lemma_lines_eof(ff, p, l, e); }
+                    lemma_views_lift(ff, rd.base(), rd.b(), &rd.buf_pos);
+                }
+            }
         }
 //@end
 }
